@@ -65,6 +65,14 @@ func genC11(r *Rand) *VariantCase {
 		}
 		sub[d.Name] = t
 	}
+	// EQUs that are other names for labels (from the program generator): inlined as the label itself
+	for _, st := range p.Stmts {
+		if st.K == "equ" {
+			if _, isDef := sub[st.Label]; !isDef {
+				sub[st.Label] = st.Text
+			}
+		}
+	}
 	q := stripKinds(p, "equ")
 	inl := renameIdents(q.Source(), sub)
 	// a program consisting only of the definitions must emit nothing: compared with an empty-code program of the same prologue
